@@ -10,7 +10,7 @@ for f in sorted(glob.glob('/verif/seeded/*/meta.json')):
     for c, v in m.get('checks_run', {}).items():
         if v.get('violation_keys'):
             key = v['violation_keys'][0][:150]; break
-    wave = {'A': 1, 'B': 1, 'C': 2, 'D': 2, 'E': 3, 'F': 3, 'G': 4, 'H': 4}.get(m['id'][-1], '?')
+    wave = {'A': 1, 'B': 1, 'C': 2, 'D': 2, 'E': 3, 'F': 3, 'G': 4, 'H': 4, 'I': 5, 'J': 5}.get(m['id'][-1], '?')
     rows.append((m['id'], wave, m.get('summary', '').replace('|', '/'), m.get('valid'), m.get('tier'), runs, ",".join(det) or '-', key))
 out = ["| seeded change | wave | what was changed | valid (tests 143/7, demo fails with / passes without) | tier | checks run | reported by | first violation key |", "|---|---|---|---|---|---|---|---|"]
 for r in rows:
